@@ -110,3 +110,37 @@ Theorem C02_legacy_ignores_output_proofs_without_flag : forall t t' idx script h
   preimage_legacy t idx script ht = preimage_legacy t' idx script ht.
 Proof. exact legacy_ignores_output_proofs_without_flag. Qed.
 Print Assumptions C02_legacy_ignores_output_proofs_without_flag.
+
+(* ---- the converse: covered fields change the pre-image and, under an ideal hash, the digest ---- *)
+From GE Require Import Proofs.SighashSens.
+
+(* segwit v0: equal pre-images (or equal digests) force equal covered views, equal script code and equal amount *)
+Theorem C02_v0_sensitive : forall (H2 : bytes -> bytes),
+  (forall a b, H2 a = H2 b -> a = b) -> (forall a, length (H2 a) = 32%nat) -> (forall a, H2 a <> zero32) ->
+  forall t t' idx script script' value value' ht p,
+  wf_tx t = true -> wf_tx t' = true -> iss_compatible t t' ->
+  lenN script < two64 -> lenN script' < two64 -> is_value value = true -> is_value value' = true ->
+  preimage_v0 H2 t idx script value ht = Some p -> preimage_v0 H2 t' idx script' value' ht = Some p ->
+  view_v0 t idx ht = view_v0 t' idx ht /\ script = script' /\ value = value'.
+Proof. exact v0_sensitive. Qed.
+Print Assumptions C02_v0_sensitive.
+
+Theorem C02_v0_digest_sensitive : forall (H2 : bytes -> bytes),
+  (forall a b, H2 a = H2 b -> a = b) -> (forall a, length (H2 a) = 32%nat) -> (forall a, H2 a <> zero32) ->
+  forall t t' idx script script' value value' ht d,
+  wf_tx t = true -> wf_tx t' = true -> iss_compatible t t' ->
+  lenN script < two64 -> lenN script' < two64 -> is_value value = true -> is_value value' = true ->
+  digest_v0 H2 t idx script value ht = Some d -> digest_v0 H2 t' idx script' value' ht = Some d ->
+  view_v0 t idx ht = view_v0 t' idx ht /\ script = script' /\ value = value'.
+Proof. exact v0_digest_sensitive. Qed.
+Print Assumptions C02_v0_digest_sensitive.
+
+(* legacy (without the RANGEPROOF bit): equal pre-images force equal covered views of the hashed copies *)
+Theorem C02_legacy_sensitive : forall t t' idx script script' ht c c' p,
+  ht_rp ht = false ->
+  legacy_tx t idx script ht = Some c -> legacy_tx t' idx script' ht = Some c' ->
+  wf_tx c = true -> wf_tx c' = true ->
+  preimage_legacy t idx script ht = Some p -> preimage_legacy t' idx script' ht = Some p ->
+  sig_view false c = sig_view false c'.
+Proof. exact legacy_sensitive. Qed.
+Print Assumptions C02_legacy_sensitive.
